@@ -15,6 +15,7 @@ import MptModel.Lemmas.HeapXX
 import MptModel.Lemmas.HeapPrintf
 import MptModel.Lemmas.HeapSlice
 import MptModel.Lemmas.HeapTyped
+import MptModel.Lemmas.HeapValues
 namespace Mpt.C04
 open Mpt Mpt.Heap
 
@@ -163,6 +164,15 @@ theorem slice_write (s : State) (h nblk esz : Nat) (bytes : List Byte) (w : Win)
         ∃ w', s'.win h = some w' ∧
           Vec.sub (s'.abs h) w'.off w'.len = Vec.sub (s.abs h) w.off w.len ++ Vec.blocks bytes k esz :=
   sliceWrite_sem s h nblk esz bytes w inv hlt bl hw wfit
+
+/-- `mpt_values_prepare` (mptplot/values, a caller of the buffer's detach): `len ≥ 0` appends `len` zeroed doubles,
+    `len < 0` appends a copy of the last `-len` doubles and is refused without a change when the array holds fewer;
+    whatever is shared, every other handle keeps its value; an array of another element type is refused -/
+theorem values_prepare (s : State) (h : Nat) (dt : Traits) (len : Int) (inv : Inv s) (hlt : h < s.hs.length)
+    (pt : PlainT (some dt)) (d8 : dt.size = 8) :
+    Sem s h (fun v v' => v' = if len < 0 then v ++ v.drop (v.length - len.natAbs * 8) else v ++ zeros (len.natAbs * 8))
+      (valuesPrepare s h dt len) :=
+  valuesPrepare_sem inv hlt dt pt d8 len
 
 /-! ### C++ layer (mpt++/array.cpp, templates of mptcore/array.h; model `Impl/HeapXX.lean`) -/
 
